@@ -128,6 +128,7 @@ def conv_work(P, item):
     s.set("timeout", 60000)
     P.stats.queries += 1
     res = s.check(z3.Or(bad))
+    P.stats.note_query([z3.Or(bad)], res)
     if res == z3.unsat:
         P.obligation(nm, "holds", symbolic=True)
     elif res == z3.unknown:
